@@ -28,6 +28,9 @@ if ! go build -tags verif -trimpath -o $OUT/saosim ./verifsim >$SCR/build.log 2>
   cat $SCR/build.log >&2; rm -rf $OUT; echo "build failed" >&2; exit 2
 fi
 [ -f $SCR/instrument.log ] && cp $SCR/instrument.log $OUT/instrument.log || true
-# keep the five most recent binaries
-ls -1dt $VERIF/.build/*/ 2>/dev/null | tail -n +6 | xargs -r rm -rf
+# keep the eight most recent binaries; never evict one younger than 90 minutes (it may be in use, or
+# still being built, by a check running in parallel)
+for d in $(ls -1dt $VERIF/.build/*/ 2>/dev/null | tail -n +9); do
+  [ -n "$(find "$d" -maxdepth 0 -mmin +90 2>/dev/null)" ] && rm -rf "$d"
+done
 echo $OUT/saosim
